@@ -73,6 +73,10 @@ def handlers : Site → List (Exc × Action)
   | .jsonDecode => [(.ValueError, .httpErr 400)]
   | .basicB64 => [(.ValueError, .httpErr 400), (.BinasciiError, .httpErr 400)]
   | .digestKeqv => [(.ValueError, .httpErr 400), (.IndexError, .httpErr 400)]
+  | .encodeCharset => [(.LookupError, .tolerate), (.ValueError, .tolerate)]
+  | .proxyNetloc => []
+  | .redirectNetloc => []
+  | .rfileRead => [(.MaxSizeExceeded, .httpErr 413)]
 
 /-- the hook point the site runs under -/
 inductive Stage | early | beforeFinalize
@@ -122,10 +126,15 @@ def contract : Site → List Exc
   | .jsonDecode => [.JSONDecodeError, .UnicodeDecodeError, .ValueError, .RecursionError]
   | .basicB64 => [.BinasciiError, .UnicodeEncodeError, .ValueError]
   | .digestKeqv => [.IndexError, .ValueError]
+  | .encodeCharset => [.LookupError, .UnicodeEncodeError, .UnicodeError, .ValueError]
+  | .proxyNetloc => [.ValueError]
+  | .redirectNetloc => [.ValueError]
+  | .rfileRead => [.ValueError, .OSError, .OverflowError, .MaxSizeExceeded]
 
 /-- (site, class) pairs of the contracts that the unchanged tree answers with 5xx (findings). -/
 def knownUncaught : List (Site × Exc) :=
-  [(.qvalueGzip, .ValueError), (.jsonDecode, .RecursionError)]
+  [(.qvalueGzip, .ValueError), (.jsonDecode, .RecursionError), (.proxyNetloc, .ValueError),
+   (.redirectNetloc, .ValueError), (.rfileRead, .ValueError), (.rfileRead, .OSError), (.rfileRead, .OverflowError)]
 
 /-- what a parser model raises: a Python exception, or `cherrypy.HTTPError(code)` directly -/
 inductive Raised
